@@ -328,7 +328,20 @@ def op_xpath(op) -> str:
         return f'map:for-each({v(op[1])}, {FN2_XP[op[2]]})'
     if n == 'deq':
         return f'deep-equal({v(op[1])}, {v(op[2])})'
+    if n == 'call':
+        # op = ('call', f, k, form, base): `$f(K)` with K computed from $k; base = text of the function
+        base = op[4] if len(op) > 4 and op[4] else v(op[1])
+        return f'{base}({CALL_FORMS[op[3]].format(k=v(op[2]))})'
+    if n == 'call2':
+        return f'{v(op[1])}({v(op[2])})({CALL_FORMS[op[4] if len(op) > 4 else "var"].format(k=v(op[3]))})'
     raise ValueError(op)
+
+
+# how the argument of a dynamic call is computed from the key variable; the first two take the first item
+CALL_FORMS = {'pred': '({k})[1]', 'head': 'head({k})', 'var': '{k}', 'paren': '(({k}))',
+              'for': 'for $xx in {k} return $xx', 'lookup': "map{{'kk': {k}}}?kk", 'if': 'if (true()) then {k} else ()',
+              'let': 'let $yy := {k} return $yy', 'bang': '{k} ! .', 'filter': '({k})[true()]'}
+CALL_FIRST = ('pred', 'head')
 
 
 PRED_XP = {'t': 'function($xx) { true() }', 'f': 'function($xx) { false() }',
@@ -398,6 +411,10 @@ def op_proto(op) -> str:
         return f'mfe,{var(op[1])},{op[2]}'
     if n == 'deq':
         return f'deq,{var(op[1])},{var(op[2])}'
+    if n == 'call':
+        return f'call,{var(op[1])},{var(op[2])},{1 if op[3] in CALL_FIRST else 0}'
+    if n == 'call2':
+        return f'call2,{var(op[1])},{var(op[2])},{var(op[3])}'
     raise ValueError(op)
 
 
@@ -537,6 +554,13 @@ def op_template(op):
         e = f'map:for-each({P(op[1])}, {FN2_XP[op[2]]})'
     elif n == 'deq':
         e = f'deep-equal({P(op[1])}, {P(op[2])})'
+    elif n == 'call':
+        f = P(op[1])
+        e = f'{f}({CALL_FORMS[op[3]].format(k=P(op[2]))})'
+    elif n == 'call2':
+        t = P(op[1])
+        k1 = P(op[2])
+        e = f'{t}({k1})({CALL_FORMS[op[4] if len(op) > 4 else "var"].format(k=P(op[3]))})'
     else:
         raise ValueError(op)
     return e, b
@@ -872,6 +896,8 @@ class Gen:
             return 2 * sz[op[1]] + 1
         if n == 'deq':
             return 1
+        if n == 'call2':
+            return sz[op[1]] + 1
         return sz[op[1]] + 1
 
     def add(self, op, typ):
@@ -916,6 +942,8 @@ class Gen:
         if m is not None:
             choices += ['mfe']
         choices += ['deq', 'deq']
+        if m is not None or a is not None:
+            choices += ['call', 'call', 'call', 'call2']
         c = rng.choice(choices)
         bad = rng.random() < 0.03        # ill-typed operand
         if c == 'mctor':
@@ -931,6 +959,8 @@ class Gen:
         aa = val if bad else a
         if c == 'deq':
             return self.gen_deq()
+        if c in ('call', 'call2'):
+            return self.gen_call(c, m, a, val, bad)
         if c == 'afe':
             f = rng.choice(['id', 'dup', 'cnt', ('c', self.key())])
             return self.add(('afe', aa, f), 'arr')
@@ -1045,6 +1075,44 @@ class Gen:
         self.add(tw, self.types[x])
         y = len(self.ops) - 1
         return self.add(('deq', x, y) if rng.random() < 0.5 else ('deq', y, x), 'seq')
+
+    def gen_call(self, c, m, a, val, bad):
+        """`$f(K)`: a map or an array called as a function with a COMPUTED argument (never a literal)"""
+        rng = self.rng
+        f = rng.choice([x for x in (m, a) if x is not None])
+        if bad:
+            f = val
+
+        def key_var(base):
+            r = rng.random()
+            n_items = 1 if r < 0.78 else 0 if r < 0.85 else 2
+            ks = []
+            for _ in range(n_items):
+                if self.types[base] == 'arr':
+                    ks.append(rng.choice([('i', rng.randrange(0, 4)), ('i', 1), ('i', 2), ('d', '1.0'), ('s', 'a'),
+                                          ('b', True)]) if rng.random() < 0.3 else ('i', rng.randrange(1, 4)))
+                else:
+                    ks.append(self.existing_key(base) if rng.random() < 0.7 else self.key())
+            if rng.random() < 0.04 and val is not None:
+                ks.append(val)                           # possibly a map/array in the argument
+            self.add(('seq', ks), 'seq')
+            return len(self.ops) - 1
+        if c == 'call2':
+            inner = f
+            tk = self.key()
+            self.add(('mctor', [(tk, inner)]), 'map')
+            t = len(self.ops) - 1
+            self.add(('seq', [tk]), 'seq')
+            k1 = len(self.ops) - 1
+            k2 = key_var(inner)
+            return self.add(('call2', t, k1, k2, rng.choice(['var', 'for', 'paren', 'lookup'])), 'seq')
+        k = key_var(f)
+        form = rng.choice(list(CALL_FORMS))
+        base = None
+        if (self.ops[f][0] == 'asquare' or (self.ops[f][0] == 'mctor' and len(self.ops[f][1]) <= 1)) \
+                and rng.random() < 0.4:
+            base = op_xpath(self.ops[f])                # `map{...}(K)` / `[...](K)`: the constructor itself
+        return self.add(('call', f, k, form, base), 'seq')
 
     def existing_key(self, m):
         """a key that was (probably) put into map $m: scan the ops that built it; else random —
@@ -1208,6 +1276,13 @@ CORPUS = [
     [('seq', [('i', 1)]), ('seq', [('i', 2)]), ('mctor', [(('i', 1), 0)]), ('mctor', [(('d', '1.0'), 1)]), ('seq', [2, 3]),
      ('mmerge', 4, 'first'), ('mmerge', 4, 'last'), ('mmerge', 4, 'combine'), ('mmerge', 4, 'reject'), ('mmerge', 4, 'first'),
      ('mmerge', 4, 'default')],
+    # a map / an array called as a function with computed arguments; error cases
+    [('seq', [('i', 1)]), ('seq', [('i', 2), ('i', 1)]), ('seq', []), ('mctor', [(('i', 1), 0), (('i', 2), 1)]), ('asquare', [0, 1]),
+     ('call', 3, 1, 'pred', None), ('call', 3, 0, 'for', None), ('call', 3, 0, 'lookup', None), ('call', 3, 2, 'var', None),
+     ('call', 3, 1, 'var', None), ('call', 4, 1, 'pred', None), ('call', 4, 1, 'head', None), ('call', 4, 0, 'for', None),
+     ('call', 4, 0, 'lookup', None), ('call', 4, 2, 'paren', None), ('call', 4, 1, 'if', None), ('call', 0, 0, 'var', None),
+     ('mctor', [(('s', 'x'), 4), (('s', 'y'), 3)]), ('seq', [('s', 'x')]), ('call2', 17, 18, 1, 'for'), ('seq', [('s', 'y')]),
+     ('call2', 17, 20, 0, 'lookup'), ('call', 4, 0, 'let', '[$v0, $v1]'), ('call', 3, 0, 'bang', 'map{1: $v0, 2: $v1}')],
     # F15w: a non-map operand of map:merge
     [('seq', [('i', 7)]), ('mmerge', 0, 'combine'), ('mctor', [(('i', 1), 0)]), ('seq', [2, 2, 0]), ('mmerge', 3, 'reject')],
     # xs:untypedAtomic keys: string class; the constructor stores them as xs:string, map:entry/put keep them
@@ -1402,8 +1477,10 @@ def op_vars(op):
         return [op[2]]
     if n in ('mput', 'aput', 'ainsert'):
         return [op[1], op[3]]
-    if n in ('aappend', 'afoldl', 'afoldr', 'apair', 'deq'):
+    if n in ('aappend', 'afoldl', 'afoldr', 'apair', 'deq', 'call'):
         return [op[1], op[2]]
+    if n == 'call2':
+        return [op[1], op[2], op[3]]
     return [op[1]]
 
 
@@ -1419,6 +1496,10 @@ def rename_vars(op, f):
         return (n, op[1], f(op[2]))
     if n in ('mput', 'aput', 'ainsert'):
         return (n, f(op[1]), op[2], f(op[3]))
+    if n == 'call':
+        return (n, f(op[1]), f(op[2]), op[3], None)       # an inline base text would keep old variable names
+    if n == 'call2':
+        return (n, f(op[1]), f(op[2]), f(op[3]), *op[4:])
     if n in ('aappend', 'afoldl', 'afoldr', 'apair', 'deq'):
         return (n, f(op[1]), f(op[2]), *op[3:])
     return (n, f(op[1]), *op[2:])
